@@ -1,11 +1,278 @@
-//! Sanitizer / interpreter legs (thorough tier): ASan, valgrind memcheck, Miri for C07; TSan for C14.
-use crate::evidence::{Ctx, Report};
-use serde_json::json;
+//! Sanitizer / interpreter legs (thorough tier, DESIGN.md §5): ASan, valgrind memcheck and Miri
+//! for C07; ThreadSanitizer for C14. A leg whose toolchain step fails is reported as such in the
+//! evidence and decides nothing; a sanitizer report decides only with an `sd_jwt_rs` frame.
 
-pub fn tsan_leg(_ctx: &Ctx, rep: &mut Report) {
-    rep.extra.insert("tsan_leg".into(), json!({"status": "not built in this commit"}));
+use crate::evidence::{run_sharded_with, Ctx, Report, ShardEnd, Violation};
+use serde_json::{json, Value};
+use std::process::Command;
+use std::time::Instant;
+
+fn harness_dir(ctx: &Ctx) -> String {
+    format!("{}/harness", ctx.verif_dir)
 }
 
-pub fn c07_legs(_ctx: &Ctx, rep: &mut Report) {
-    rep.extra.insert("sanitizer_legs".into(), json!({"status": "not built in this commit"}));
+/// Build one flavour of the harness with the nightly toolchain. Returns the executable path.
+fn build_flavour(ctx: &Ctx, rustflags: &str, build_std: bool, target_dir: &str) -> Result<String, String> {
+    let mut cmd = Command::new("cargo");
+    cmd.current_dir(harness_dir(ctx))
+        .env("RUSTFLAGS", rustflags)
+        .env("CARGO_NET_OFFLINE", "true")
+        .args(["+nightly", "build", "--release", "--offline", "--target", "x86_64-unknown-linux-gnu", "--target-dir", target_dir]);
+    if build_std {
+        cmd.arg("-Zbuild-std");
+    }
+    let out = cmd.output().map_err(|e| format!("cannot run cargo: {e}"))?;
+    if !out.status.success() {
+        let t = String::from_utf8_lossy(&out.stderr);
+        return Err(format!("build failed: {}", t.chars().rev().take(600).collect::<String>().chars().rev().collect::<String>()));
+    }
+    Ok(format!("{}/{}/x86_64-unknown-linux-gnu/release/sdjwt-mon", harness_dir(ctx), target_dir))
+}
+
+/// Split a sanitizer log into report blocks starting at lines containing `marker`.
+fn report_blocks(text: &str, marker: &str) -> Vec<String> {
+    let mut blocks: Vec<String> = vec![];
+    let mut cur: Option<String> = None;
+    for line in text.lines() {
+        if line.contains(marker) {
+            if let Some(b) = cur.take() {
+                blocks.push(b);
+            }
+            cur = Some(String::new());
+        }
+        if let Some(b) = cur.as_mut() {
+            if b.len() < 6000 {
+                b.push_str(line);
+                b.push('\n');
+            }
+        }
+    }
+    if let Some(b) = cur {
+        blocks.push(b);
+    }
+    blocks
+}
+
+fn first_repo_frame(block: &str) -> Option<String> {
+    block.lines().find(|l| l.contains("sd_jwt_rs::")).map(|l| {
+        let i = l.find("sd_jwt_rs::").unwrap();
+        l[i..].split_whitespace().next().unwrap_or("sd_jwt_rs::?").trim_end_matches([')', ',']).to_string()
+    })
+}
+
+fn read_logs(dir: &str, prefix: &str) -> String {
+    let mut all = String::new();
+    if let Ok(rd) = std::fs::read_dir(dir) {
+        for e in rd.flatten() {
+            let name = e.file_name().to_string_lossy().to_string();
+            if name.starts_with(prefix) {
+                if let Ok(t) = std::fs::read_to_string(e.path()) {
+                    all.push_str(&t);
+                    all.push('\n');
+                }
+                let _ = std::fs::remove_file(e.path());
+            }
+        }
+    }
+    all
+}
+
+/// Turn report blocks into violations (in-repo frame) or a list of foreign reports.
+fn judge_reports(rep: &mut Report, leg: &str, blocks: Vec<String>) -> Value {
+    let mut in_repo: Vec<String> = vec![];
+    let mut foreign: Vec<String> = vec![];
+    let mut seen = std::collections::HashSet::new();
+    for b in &blocks {
+        let head = b.lines().next().unwrap_or("").trim().to_string();
+        // strip pids / addresses from the headline so that signatures are stable
+        let kind: String = head.split_whitespace().filter(|w| !w.starts_with("==") && !w.starts_with("0x") && !w.chars().all(|c| c.is_ascii_digit())).take(8).collect::<Vec<_>>().join(" ");
+        match first_repo_frame(b) {
+            Some(frame) => {
+                if seen.insert(format!("{kind}|{frame}")) {
+                    in_repo.push(format!("{kind} @ {frame}"));
+                    rep.local.violate(Violation {
+                        subcheck: format!("{leg}-report"),
+                        class: frame.clone(),
+                        observed: kind.clone(),
+                        case: 0,
+                        detail: json!({"leg": leg, "report": b.chars().take(4000).collect::<String>()}),
+                    });
+                }
+            }
+            None => {
+                if seen.insert(kind.clone()) {
+                    foreign.push(kind);
+                }
+            }
+        }
+    }
+    json!({"report_blocks": blocks.len(), "with_sd_jwt_rs_frame": in_repo, "without_repo_frame_listed_not_judged": foreign})
+}
+
+fn shard_summary(ends: &[ShardEnd]) -> Value {
+    json!({
+        "shards": ends.len(),
+        "shards_ok": ends.iter().filter(|e| e.ok).count(),
+        "abnormal": ends.iter().filter(|e| !e.ok).map(|e| json!({"shard": e.shard, "code": e.code, "signal": e.signal, "stderr_tail": e.stderr_tail.chars().rev().take(400).collect::<String>().chars().rev().collect::<String>()})).collect::<Vec<_>>(),
+    })
+}
+
+pub fn c07_legs(ctx: &Ctx, rep: &mut Report) {
+    let logs = format!("{}/.partials", ctx.out_dir);
+    let _ = std::fs::create_dir_all(&logs);
+    let mut legs = serde_json::Map::new();
+
+    // ---- ASan
+    {
+        let t0 = Instant::now();
+        match build_flavour(ctx, "-Zsanitizer=address -Cforce-frame-pointers=yes", false, "target-asan") {
+            Err(e) => {
+                legs.insert("asan".into(), json!({"status": "toolchain step failed; leg decides nothing", "error": e}));
+            }
+            Ok(exe) => {
+                let env = vec![("ASAN_OPTIONS".to_string(), format!("halt_on_error=1:abort_on_error=1:detect_leaks=0:log_path={logs}/asanlog"))];
+                let (l, ends) = run_sharded_with(ctx, 16, 1, &[exe], &env, "asan", 3600);
+                let text = read_logs(&logs, "asanlog");
+                let verdict = judge_reports(rep, "asan", report_blocks(&text, "ERROR: AddressSanitizer"));
+                rep.local.add("leg.asan.api-calls", l.evals);
+                let panics = l.violation_count;
+                for v in l.violations {
+                    rep.local.violate(v);
+                }
+                legs.insert("asan".into(), json!({"status": "run", "api_calls": l.evals, "counters": l.counters, "panics_seen": panics, "reports": verdict, "children": shard_summary(&ends), "wall_s": t0.elapsed().as_secs()}));
+            }
+        }
+    }
+    // ---- valgrind memcheck on the plain release binary
+    {
+        let t0 = Instant::now();
+        let have = Command::new("valgrind").arg("--version").output().map(|o| o.status.success()).unwrap_or(false);
+        if !have {
+            legs.insert("valgrind".into(), json!({"status": "valgrind not available; leg decides nothing"}));
+        } else {
+            let me = std::env::current_exe().unwrap().to_string_lossy().to_string();
+            let prefix: Vec<String> = vec!["valgrind".into(), "--quiet".into(), "--error-exitcode=0".into(), "--leak-check=no".into(), format!("--log-file={logs}/vglog.%p"), me];
+            let (l, ends) = run_sharded_with(ctx, 16, 1, &prefix, &[], "valgrind", 3600);
+            let text = read_logs(&logs, "vglog");
+            // memcheck error kinds
+            let mut blocks = vec![];
+            for m in ["Invalid read", "Invalid write", "Invalid free", "Mismatched free", "Conditional jump or move depends on uninitialised", "Use of uninitialised value", "Source and destination overlap", "Syscall param"] {
+                blocks.extend(report_blocks(&text, m).into_iter().map(|b| {
+                    // a block runs until the next blank "==pid==" line
+                    let mut out = String::new();
+                    for line in b.lines() {
+                        let body = line.splitn(3, "==").nth(2).unwrap_or("").trim();
+                        if body.is_empty() && !out.is_empty() {
+                            break;
+                        }
+                        out.push_str(line);
+                        out.push('\n');
+                    }
+                    out
+                }));
+            }
+            let verdict = judge_reports(rep, "valgrind", blocks);
+            rep.local.add("leg.valgrind.api-calls", l.evals);
+            let panics = l.violation_count;
+            for v in l.violations {
+                rep.local.violate(v);
+            }
+            legs.insert("valgrind".into(), json!({"status": "run", "api_calls": l.evals, "counters": l.counters, "panics_seen": panics, "reports": verdict, "children": shard_summary(&ends), "wall_s": t0.elapsed().as_secs()}));
+        }
+    }
+    // ---- Miri on the holder path (the only one that does not cross FFI)
+    {
+        let t0 = Instant::now();
+        let seeds = format!("{logs}/miri-seeds-{}.json", std::process::id());
+        if !crate::mon::c07::write_miri_seeds(&seeds) {
+            legs.insert("miri".into(), json!({"status": "could not produce seed tokens natively; leg decides nothing"}));
+        } else {
+            let cases = crate::mon::c07::cases_for_leg(ctx, "miri");
+            let shards = 16u64;
+            let spawn = |k: u64, n: u64, cases: u64, partial: &str| {
+                Command::new("cargo")
+                    .current_dir(harness_dir(ctx))
+                    .env("MIRIFLAGS", "-Zmiri-disable-isolation")
+                    .env("CARGO_NET_OFFLINE", "true")
+                    .args(["+nightly", "miri", "run", "--offline", "--target-dir", "target-miri", "--", "C07-miri", &ctx.seed.to_string(), &k.to_string(), &n.to_string(), &cases.to_string(), &seeds, partial])
+                    .stdout(std::process::Stdio::null())
+                    .stderr(std::process::Stdio::piped())
+                    .spawn()
+            };
+            // build once (zero cases), then the shards in parallel
+            let warm = format!("{logs}/miri-warm-{}.json", std::process::id());
+            let built = spawn(0, 1, 0, &warm).and_then(|c| c.wait_with_output()).map(|o| o.status.success()).unwrap_or(false);
+            let _ = std::fs::remove_file(&warm);
+            if !built {
+                legs.insert("miri".into(), json!({"status": "cargo miri could not build/run the harness; leg decides nothing"}));
+            } else {
+                let mut kids = vec![];
+                for k in 0..shards {
+                    let partial = format!("{logs}/miri-{}-{k}.json", std::process::id());
+                    kids.push((k, partial.clone(), spawn(k, shards, cases, &partial).ok()));
+                }
+                let mut calls = 0u64;
+                let mut counters = std::collections::BTreeMap::new();
+                let mut ub_blocks = vec![];
+                let mut unsupported = 0u64;
+                let mut ok_shards = 0u64;
+                for (_k, partial, child) in kids {
+                    if let Some(c) = child {
+                        if let Ok(o) = c.wait_with_output() {
+                            let err = String::from_utf8_lossy(&o.stderr).to_string();
+                            if err.contains("unsupported operation") {
+                                unsupported += 1;
+                            }
+                            ub_blocks.extend(report_blocks(&err, "error: Undefined Behavior"));
+                            ub_blocks.extend(report_blocks(&err, "error: memory leaked"));
+                            ub_blocks.extend(report_blocks(&err, "Data race detected"));
+                            if o.status.success() {
+                                ok_shards += 1;
+                            }
+                        }
+                    }
+                    if let Some(v) = std::fs::read_to_string(&partial).ok().and_then(|t| serde_json::from_str::<Value>(&t).ok()) {
+                        let l = crate::evidence::Local::from_json(&v);
+                        calls += l.evals;
+                        for (k, x) in &l.counters {
+                            *counters.entry(k.clone()).or_insert(0u64) += x;
+                        }
+                        for v in l.violations {
+                            rep.local.violate(v);
+                        }
+                    }
+                    let _ = std::fs::remove_file(&partial);
+                }
+                let verdict = judge_reports(rep, "miri", ub_blocks);
+                rep.local.add("leg.miri.api-calls", calls);
+                legs.insert("miri".into(), json!({"status": "run", "scope": "SDJWTHolder::new + create_presentation without key binding", "api_calls": calls, "counters": counters, "reports": verdict, "shards_ok": ok_shards, "shards": shards, "unsupported_operation_aborts": unsupported, "wall_s": t0.elapsed().as_secs()}));
+            }
+        }
+        let _ = std::fs::remove_file(&seeds);
+    }
+    rep.extra.insert("sanitizer_legs".into(), Value::Object(legs));
+}
+
+pub fn tsan_leg(ctx: &Ctx, rep: &mut Report) {
+    let logs = format!("{}/.partials", ctx.out_dir);
+    let _ = std::fs::create_dir_all(&logs);
+    let t0 = Instant::now();
+    match build_flavour(ctx, "-Zsanitizer=thread", true, "target-tsan") {
+        Err(e) => {
+            rep.extra.insert("tsan_leg".into(), json!({"status": "toolchain step failed; leg decides nothing", "error": e}));
+        }
+        Ok(exe) => {
+            let env = vec![("TSAN_OPTIONS".to_string(), format!("halt_on_error=0:exitcode=0:log_path={logs}/tsanlog"))];
+            let mut c = ctx.clone();
+            c.scale = ctx.scale * 0.5;
+            let (l, ends) = run_sharded_with(&c, 1, 16, &[exe], &env, "tsan", 3600);
+            let text = read_logs(&logs, "tsanlog");
+            let verdict = judge_reports(rep, "tsan", report_blocks(&text, "WARNING: ThreadSanitizer"));
+            rep.local.add("leg.tsan.credentials", l.evals);
+            for v in l.violations {
+                rep.local.violate(v);
+            }
+            rep.extra.insert("tsan_leg".into(), json!({"status": "run", "credentials_issued_under_tsan": l.evals, "counters": l.counters, "reports": verdict, "children": shard_summary(&ends), "wall_s": t0.elapsed().as_secs()}));
+        }
+    }
 }
